@@ -50,6 +50,14 @@ def make_actions(kind, v):
                                     [(C('y', LV2), 6, C('q', LVQ)), (C('x', LV2), 5, C('p', LVQ)), (C('x', LV2), 7, C('q', LVQ))])
     if kind == 'sparsecat': return ([{'key': C('x', LV3), 'n': 1}, {'key': C('y', LV3), 'n': 2}] if v == 0 else
                                     [{'key': C('z', LV3), 'n': 2}, {'key': C('x', LV3), 'n': 1}, {'key': C('y', LV3), 'n': 3}])
+    if kind == 'nestcat':   return ([[[C('x', LV3), 1.0], 10.0], [[C('y', LV3), 2.0], 20.0]] if v == 0 else       # categorical in a list in a list
+                                    [[[C('z', LV3), 3.0], 30.0], [[C('x', LV3), 1.0], 10.0], [[C('y', LV3), 2.0], 20.0]])
+    if kind == 'tnestcat':  return ([((C('x', LV3), 1.0), 10.0), ((C('y', LV3), 2.0), 20.0)] if v == 0 else       # same, immutable containers
+                                    [((C('z', LV3), 3.0), 30.0), ((C('x', LV3), 1.0), 10.0), ((C('y', LV3), 2.0), 20.0)])
+    if kind == 'nscat':     return ([{'ns': [C('x', LV3), 1], 'v': 10}, {'ns': [C('y', LV3), 2], 'v': 20}] if v == 0 else   # namespaced: dict of list
+                                    [{'ns': [C('z', LV3), 3], 'v': 30}, {'ns': [C('x', LV3), 1], 'v': 10}, {'ns': [C('y', LV3), 2], 'v': 20}])
+    if kind == 'lnscat':    return ([[{'kk': C('x', LV3), 'n': 1}, 10], [{'kk': C('y', LV3), 'n': 2}, 20]] if v == 0 else         # dict in a list
+                                    [[{'kk': C('z', LV3), 'n': 3}, 30], [{'kk': C('x', LV3), 'n': 1}, 10], [{'kk': C('y', LV3), 'n': 2}, 20]])
     if kind == 'mixed':     return [1, 'a'] if v == 0 else ['a', 2, 'b']
     if kind == 'labels':    return [['a'], ['a', 'b'], ['c']] if v == 0 else [['c'], ['a', 'b']]
     if kind == 'head':      return ([HeadDense([1, 0], dict(HDR)), HeadDense([0, 2], dict(HDR))] if v == 0 else
@@ -58,9 +66,9 @@ def make_actions(kind, v):
 
 
 AKINDS = ['num', 'str', 'cat2', 'cat3', 'vec', 'lvec', 'nest', 'tnest', 'sparse', 'snest', 'veccat', 'catvec',
-          'sparsecat', 'mixed', 'labels', 'head']
-HASHABLE = {'num', 'str', 'cat2', 'cat3', 'vec', 'tnest', 'veccat', 'catvec', 'mixed'}
-SPARSE_CTX = {'sparse', 'snest', 'sparsecat'}
+          'sparsecat', 'nestcat', 'tnestcat', 'nscat', 'lnscat', 'mixed', 'labels', 'head']
+HASHABLE = {'num', 'str', 'cat2', 'cat3', 'vec', 'tnest', 'veccat', 'catvec', 'tnestcat', 'mixed'}
+SPARSE_CTX = {'sparse', 'snest', 'sparsecat', 'nscat'}
 
 
 def make_context(akind, k):
@@ -120,7 +128,7 @@ def build_interactions(case):
         A = make_actions(ak, v)
         n = len(A)
         it = {'context': make_context(ak, k), 'actions': A}
-        b = {'n': n}
+        b = {'n': n, 'shown': show(A)}            # everything in b is plain data taken BEFORE any filter runs
         if rk is not None:
             it['rewards'], meant = make_fn(rk, ak, v, [(k * 4 + i + 1) / 8 for i in range(n)])
             b['rewards'] = observe(it['rewards'], A)
@@ -266,8 +274,7 @@ def unbatch_plain(outs):
     return flat, groups
 
 
-def run_chain(case):
-    inters, base = build_interactions(case)
+def run_chain(case, inters):
     chain = case['chain']
     if case['via'] == 'envs':
         envs = Environments(ListEnv(inters))
@@ -278,28 +285,50 @@ def run_chain(case):
         for op in chain:
             out = make_filter(op, batched).filter(out)
             batched = (op[0] == 'batch') or (batched and op[0] == 'finalize')
-    return inters, base, [dict(o) for o in out]
+    return [dict(o) for o in out]
+
+
+def input_failures(inters, base):
+    """The interactions the caller handed in (and still holds) must keep their own pairing: a filter that rewrites
+    caller-owned action objects in place breaks "what the i-th action earned before" for the source itself."""
+    fails, rewritten = [], False
+    for k, (old, b) in enumerate(zip(inters, base)):
+        now = show(old['actions'])
+        if now == b['shown']: continue
+        rewritten = True
+        for target in ('rewards', 'feedbacks'):
+            if target in b and observe(old[target], old['actions']) != b[target]:
+                fails.append(('input', f'rewritten in place, its {target} no longer pair with its actions',
+                              f'interaction {k} handed to the chain had actions {b["shown"]} earning {b[target][1]}; after the chain ran the same '
+                              f'input object has actions {now} earning {observe(old[target], old["actions"])[1]}'))
+        if 'action' in b and index_of(old['actions'], old['action']) != b['action']:
+            fails.append(('input', 'rewritten in place, its logged action is no longer the same member of its actions',
+                          f'interaction {k} handed to the chain had actions {b["shown"]}; afterwards the same input object has actions {now} and action {show(old["action"])}'))
+    return fails, rewritten
 
 
 def evaluate(case):
     """Run one case on the real filters -> (failures, info).  failures: list of (target, mode, detail)."""
+    inters, base = build_interactions(case)
     try:
-        inters, base, outs = run_chain(case)
+        outs = run_chain(case, inters)
     except HarnessError:
         raise
     except Exception as e:   # noqa  (what coba raises is classified, not propagated)
-        return [('chain', f'raises {type(e).__name__}', show(e)[:200])], {'changed': False, 'sig': ('raise', type(e).__name__)}
-    fails = []
+        infails, rewritten = input_failures(inters, base)
+        return ([('chain', f'raises {type(e).__name__}', show(e)[:200])] + infails,
+                {'changed': False, 'sig': ('raise', type(e).__name__), 'rewritten': rewritten})
     flat, groups = unbatch_plain(outs)
-    info = {'changed': bool(groups), 'sig': None}
+    fails, rewritten = input_failures(inters, base)
+    info = {'changed': bool(groups), 'sig': None, 'rewritten': rewritten}
     if len(flat) != len(base):
-        return [('interactions', 'count changed', f'{len(base)} interactions in, {len(flat)} out')], {'changed': True, 'sig': 'count'}
+        return fails + [('interactions', 'count changed', f'{len(base)} interactions in, {len(flat)} out')], dict(info, changed=True, sig='count')
     hashing = any(op[0] == 'dense' and op[1] == 'hashing' and op[3] for op in case['chain'])
     for k, (old, b, new) in enumerate(zip(inters, base, flat)):
         A = new.get('actions')
         if A is None or len(A) != b['n']:
             fails.append(('actions', 'count changed', f'interaction {k}: {b["n"]} actions became {show(A)}')); continue
-        if A != old['actions'] or type(A[0]) is not type(old['actions'][0]): info['changed'] = True
+        if show(A) != b['shown']: info['changed'] = True
         if has_duplicates(A):
             if hashing: info['sig'] = 'hash-collision'; continue      # documented limitation of the hashing trick (never seen with N_HASH=64)
             fails.append(('actions', 'distinct actions became equal', f'interaction {k}: {show(A)}')); continue
@@ -311,7 +340,7 @@ def evaluate(case):
             got = observe(new[target], A)
             if got != b[target]:
                 fails.append((target, 'no longer pair with actions',
-                              f'interaction {k}: actions {show(old["actions"])} earned {b[target][1]}; after the chain {show(A)} earn {got[1]} ({type(new[target]).__name__})'))
+                              f'interaction {k}: actions {b["shown"]} earned {b[target][1]}; after the chain {show(A)} earn {got[1]} ({type(new[target]).__name__})'))
         if 'action' in b:
             if 'action' not in new:
                 fails.append(('action', 'dropped', f'interaction {k}'))
@@ -325,7 +354,7 @@ def evaluate(case):
                 if new.get(t) != b[t]:
                     fails.append((t, 'changed', f'interaction {k}: {b[t]} -> {new.get(t)!r}'))
     # the batched call path: a batch of i-th actions must earn the batch of i-th rewards
-    if not fails:
+    if not [f for f in fails if f[0] != 'input']:
         for start, size, o in groups:
             for target in ('rewards', 'feedbacks'):
                 if target not in base[start] or not callable(o.get(target)): continue
@@ -371,7 +400,7 @@ def reproduces(case, target, mode):
     return bool(same(evaluate(case)[0], target, mode))
 
 
-CANON_A = ('num', 'vec', 'cat3', 'sparse', 'nest', 'veccat', 'sparsecat')
+CANON_A = ('num', 'vec', 'cat3', 'sparse', 'nest', 'veccat', 'sparsecat', 'nestcat')
 
 
 def alone_candidates(cur, op):
@@ -436,7 +465,7 @@ def diagnose(case, fails):
 
 
 WHAT = {'rewards': 'rewards ', 'feedbacks': 'feedbacks ', 'action': 'logged action ', 'reward': 'logged reward ',
-        'probability': 'logged probability ', 'chain': '', 'actions': '', 'interactions': 'interaction '}
+        'probability': 'logged probability ', 'input': 'caller-owned input ', 'chain': '', 'actions': '', 'interactions': 'interaction '}
 
 
 # ------------------------------------------------------------------ the check
@@ -468,9 +497,9 @@ class C10(Check):
     ID = 'C10'
     LEVEL = 'exploration'
     ENGINE = 'ENUM'
-    RULE = ('cases = (interaction profile, chain of representation filters, entry point). Profile: 16 action kinds (numbers, strings, '
+    RULE = ('cases = (interaction profile, chain of representation filters, entry point). Profile: 20 action kinds (numbers, strings, '
             'Categoricals over 2/3 levels, tuples, lists, nested lists/tuples, sparse dicts incl. nested values, vectors/dicts holding '
-            'Categoricals, mixed scalars, label lists, lazy HeadDense rows) x reward kind (list, tuple, BinaryReward, DiscreteReward in '
+            'Categoricals, Categoricals nested in list-in-list / tuple-in-tuple / dict-of-list / dict-in-list, mixed scalars, label lists, lazy HeadDense rows) x reward kind (list, tuple, BinaryReward, DiscreteReward in '
             'action order / reversed order / as mapping / partial with default, L1Reward, HammingReward, plain lambda) x one of {no extra, '
             'IGL feedbacks of 5 kinds, logged action at first/last index with or without rewards} x 1..3 interactions (same / different '
             'action sets). Chains: every sequence over the 36-op alphabet Repr(4x4) | Flatten | Sparsify(2x2) | Densify(2 methods x 2x2) | '
@@ -486,6 +515,8 @@ class C10(Check):
         'an all-zero dense action / empty sparse action (Sparsify drops zeros) is not generated',
         'logged action membership is by == (a Categorical equals its string), so Repr(None,"string") leaving the logged action categorical is accepted',
         'contexts are present but never inspected; exceptions raised by a filter or by a re-represented reward function are violations because the statement promises a result for these inputs',
+        'reward/feedback functions are built over independent copies of the actions (no aliasing with interaction["actions"]); what every action earns and a rendering of the actions are recorded as plain data BEFORE the chain runs',
+        'secondary oracle: if a chain rewrites the caller\'s input action objects in place, the input interactions must still pair their own actions with their own rewards/feedbacks/logged action (reported under its own "caller-owned input" key); in-place edits without a pairing consequence (e.g. list rewards) are only counted (counter input_actions_rewritten_in_place)',
         'Cycle is not in the statement\'s list and is not explored; torch batches are absent from the environment',
         'a failing case is attributed to the filter ending its shortest failing prefix; a longer chain that only trips over an earlier filter\'s failure gets no key of its own',
     ]
@@ -530,6 +561,7 @@ class C10(Check):
         acc.count('chains_of_length_%d' % len(case['chain']))
         if case['via'] == 'envs': acc.count('through_Environments_shortcuts')
         if info['sig'] == 'hash-collision': acc.count('hash_collision_not_demanded')
+        if info.get('rewritten'): acc.count('input_actions_rewritten_in_place')
         if fails: acc.count('failing_cases')
         if info['changed'] and not any(f[0] == 'chain' for f in fails): acc.mark_nontrivial()
         if fails:
